@@ -1,5 +1,5 @@
-\* exhaustive (thorough, deep): 4 temperatures, 2 table values, 6 kind pairs, every behaviour of up to 5 calls
-CONSTANTS NT = 4  NV = 2  MaxLevel = 5
+\* exhaustive (thorough, deep): 4 temperatures, 2 table values, 6 kind pairs, every behaviour of up to 4 calls
+CONSTANTS NT = 4  NV = 2  MaxLevel = 4
   KindChoices <- McKindsQuick  TempChoices <- McTempsOne  LinkPairs <- McLinks  RampSteps <- McRamp
 INIT Init
 NEXT NextB
